@@ -16,12 +16,51 @@ RULE = ('Master-level histories as in C09; after EVERY completed cycle a forked 
         'or a server restarted since placement; distinct by (history, cycle).')
 ASSUMPTIONS = ['in-memory ZooKeeper fake (ctime from the virtual clock)', 'fork()ed children', 'virtual clock']
 BUDGET = {'quick': (25, 40.0), 'thorough': (400, 300.0)}
-REQUIRED_REACH = {'*': ['restarts_compared', 'healthy_entries', 'unhealthy_restarted-since-placed', 'state_down_with_apps']}
+REQUIRED_REACH = {'*': ['restarts_compared', 'healthy_entries', 'unhealthy_restarted-since-placed', 'state_down_with_apps', 'failovers_right_after_a_pod_left_the_cell']}
+
+
+def detached_pod_failover(h, ctx, rng, report):
+    """The last thing that happens in the history: an operator takes a pod out of the cell (masterapi.cell_remove_bucket)
+    and the master fails over before it has handled the event.  Nothing about the pod's servers changed - they are
+    present, were not restarted, offer what is recorded on them - so the successor's model places what is recorded
+    under them exactly as before (the reference is taken from the store right before the operator's command)."""
+    d = h.d
+    pods = sorted(b for b, hb in d.H.buckets.items() if hb['level'] == 'pod' and b in d.Z.get('cell_members', ()))
+    if len(pods) < 2:
+        return
+    d.settle_delivery()
+    d.sync_H()
+
+    def top(s):
+        t = d.Z['servers'][s]['parent']
+        while d.H.buckets.get(t, {}).get('parent'):
+            t = d.H.buckets[t]['parent']
+        return t
+    hosting = sorted({top(s) for s in d.Z['servers'] if d.srv.children(d.z.path.placement(s))} & set(pods))
+    pod = rng.choice(hosting or pods)
+    ref = crash.reference_from_store(d)
+    old = d.snapshot_model()
+    d.interleaving = True           # the old master never gets to the event
+    try:
+        d.api.cell_remove_bucket(d.admin, pod)
+    finally:
+        d.interleaving = False
+    d.ops.append(('bucket_remove_then_failover', pod))
+    ctx.count('failovers_right_after_a_pod_left_the_cell')
+    if pod in hosting:
+        ctx.count('failovers_right_after_a_hosting_pod_left_the_cell')
+    h.cycles += 1
+    report(h, 'failover-after-pod-left-cell', lambda: crash.restart_and_compare(h, ref=ref, old=old))
 
 
 def run(ctx):
-    def hook(h, when):
-        res = crash.in_child(lambda: crash.restart_and_compare(h))
+    def hook(h, when, body=None):
+        if body is not None:
+            res = crash.in_child(body)
+        else:
+            res = None
+        if body is None:
+            res = crash.in_child(lambda: crash.restart_and_compare(h))
         ctx.count('restarts_compared')
         if res is None or 'harness_error' in res:
             ctx.count('child_error')
@@ -47,10 +86,14 @@ def run(ctx):
         if idx % 3 == 1:
             # a standby master queues for the election lock at the start (Master.run) and takes over at the end
             pf.standby, pf.p_restart = True, 0.0
+            pf.p_read_fault = (0, 0)        # (the leader holds the election lock for the whole history)
         h = mengine.MHistory(ctx, rng, pf, [])
         h.hooks.append(hook)
         try:
             h.run()
+            if not h.aborted and not getattr(pf, 'standby', False) and h.d.depth == 2 and h.d.master is not None \
+                    and not getattr(h.d, 'master_died', None) and rng.random() < 0.6:
+                detached_pod_failover(h, ctx, rng, hook)
         finally:
             env.VClock.uninstall()
         h.absorb_counters()
